@@ -102,7 +102,12 @@ pub fn sorted(mut v: Vec<String>) -> Vec<String> {
 
 /// 1-based (line, column in characters) of a byte offset.
 pub fn line_col(text: &str, offset: usize) -> (usize, usize) {
-    let before = &text[..offset.min(text.len())];
+    // An offset inside a multi-byte character is rounded down (codespan does the same).
+    let mut offset = offset.min(text.len());
+    while !text.is_char_boundary(offset) {
+        offset -= 1;
+    }
+    let before = &text[..offset];
     let line = before.matches('\n').count() + 1;
     let line_start = before.rfind('\n').map(|i| i + 1).unwrap_or(0);
     (line, before[line_start..].chars().count() + 1)
